@@ -61,8 +61,12 @@ func main() {
 				}
 				fn := fd.Name.Name
 				ast.Inspect(fd.Body, func(n ast.Node) bool {
+					set2 := os.Getenv("MUTGEN_SET") == "2"
 					switch x := n.(type) {
 					case *ast.IfStmt:
+						if set2 {
+							return true
+						}
 						add(fn, "cond-neg", x.Cond.Pos(), x.Cond.End(), "!("+string(src[off(x.Cond.Pos()):off(x.Cond.End())])+")")
 						// a guard that only returns / continues: delete it
 						if x.Else == nil && x.Init == nil && len(x.Body.List) == 1 {
@@ -72,6 +76,9 @@ func main() {
 							}
 						}
 					case *ast.BinaryExpr:
+						if set2 {
+							return true
+						}
 						swap := map[token.Token]string{token.EQL: "!=", token.NEQ: "==", token.LSS: "<=", token.LEQ: "<", token.GTR: ">=", token.GEQ: ">", token.LAND: "||", token.LOR: "&&"}
 						if r, ok := swap[x.Op]; ok {
 							add(fn, "binop", x.OpPos, x.OpPos+token.Pos(len(x.Op.String())), r)
@@ -86,30 +93,73 @@ func main() {
 							}
 						}
 					case *ast.BasicLit:
+						if set2 {
+							return true
+						}
 						if x.Kind == token.INT && (x.Value == "0" || x.Value == "1" || x.Value == "2") {
 							add(fn, "const", x.Pos(), x.End(), map[string]string{"0": "1", "1": "0", "2": "1"}[x.Value])
 						}
+					case *ast.SelectorExpr:
+						if os.Getenv("MUTGEN_SET") == "2" {
+							swapSel := map[string]string{"from": "to", "to": "from", "GetBase": "GetSubtract", "GetSubtract": "GetBase", "GetUnion": "GetIntersection", "GetIntersection": "GetUnion",
+								"Line": "Column", "Column": "Line", "Start": "End", "End": "Start", "GetModule": "GetFile", "wildcards": "conditions"}
+							if r, ok := swapSel[x.Sel.Name]; ok {
+								add(fn, "selector", x.Sel.Pos(), x.Sel.End(), r)
+							}
+						}
+					case *ast.CallExpr:
+						if os.Getenv("MUTGEN_SET") == "2" && len(x.Args) >= 2 {
+							// swap the first two arguments when they are spelled as plain identifiers / selectors (type errors do not compile and are dropped)
+							a0, a1 := string(src[off(x.Args[0].Pos()):off(x.Args[0].End())]), string(src[off(x.Args[1].Pos()):off(x.Args[1].End())])
+							if a0 != a1 && !strings.ContainsAny(a0+a1, "\"`\n") {
+								add(fn, "arg-swap", x.Args[0].Pos(), x.Args[1].End(), a1+", "+a0)
+							}
+						}
 					case *ast.Ident:
+						if os.Getenv("MUTGEN_SET") == "2" {
+							groups := [][]string{{"DirectEdge", "RewriteEdge", "TTUEdge", "ComputedEdge"}, {"SpecificType", "SpecificTypeAndRelation", "OperatorNode", "SpecificTypeWildcard"},
+								{"UnionOperator", "IntersectionOperator", "ExclusionOperator"}, {"ErrModelCycle", "ErrTupleCycle", "ErrInvalidModel"}, {"Infinite", "0"}}
+							for _, g := range groups {
+								for i, n := range g {
+									if x.Name == n {
+										add(fn, "enum", x.Pos(), x.End(), g[(i+1)%len(g)])
+									}
+								}
+							}
+							return true
+						}
 						if x.Name == "true" {
 							add(fn, "bool", x.Pos(), x.End(), "false")
 						} else if x.Name == "false" {
 							add(fn, "bool", x.Pos(), x.End(), "true")
 						}
 					case *ast.BranchStmt:
+						if set2 {
+							return true
+						}
 						if x.Tok == token.CONTINUE && x.Label == nil {
 							add(fn, "branch", x.Pos(), x.End(), "break")
 						} else if x.Tok == token.BREAK && x.Label == nil {
 							add(fn, "branch", x.Pos(), x.End(), "continue")
 						}
 					case *ast.ExprStmt:
+						if set2 {
+							return true
+						}
 						if _, ok := x.X.(*ast.CallExpr); ok {
 							add(fn, "call-del", x.Pos(), x.End(), "")
 						}
 					case *ast.AssignStmt:
+						if set2 {
+							return true
+						}
 						if x.Tok == token.ASSIGN {
 							add(fn, "assign-del", x.Pos(), x.End(), "")
 						}
 					case *ast.UnaryExpr:
+						if set2 {
+							return true
+						}
 						if x.Op == token.NOT {
 							add(fn, "not-del", x.OpPos, x.OpPos+1, "")
 						}
